@@ -59,6 +59,18 @@ var c11Pins = []c11Pin{
 	{Name: "required-absent-with-default-cue", Formats: []string{"cue"},
 		Sexp: `(defs "Root" ("Root" (struct (field "name" (string - - false) true false -) (field "a" (int 64 true - -) true false (n "5")))))`,
 		Docs: []string{`{"name":"x"}`, `{"name":"x","a":9}`}},
+	{Name: "nested-dict-of-structs",
+		Sexp: `(defs "Root" ("Root" (struct (field "name" (string - - false) true false -) (field "grid" (dict (dict (ref "Node"))) false false -) (field "items" (array (ref "Node")) false false -))) ("Node" (struct (field "v" (int 64 true - -) false false -))))`,
+		Docs: []string{`{"name":"x","grid":{"k1":{"k2":{"v":1}}}}`, `{"name":"x","grid":{"a":{"a":{"v":1}},"b":{"a":{"v":2}}}}`, `{"name":"x","grid":{"a":{"a":{"v":1}}}}`}},
+	{Name: "null-replaced-by-default",
+		Sexp: `(defs "Root" ("Root" (struct (field "name" (string - - false) true false -) (field "mode" (enumS "a" "b") true true (s "b")) (field "tags" (array (string - - false)) false true (a (s "u"))))))`,
+		Docs: []string{`{"name":"x","mode":null}`, `{"name":"x","mode":"a","tags":null}`, `{"name":"x","mode":"a","tags":["w"]}`}},
+	{Name: "nullable-constant-null",
+		Sexp: `(defs "Root" ("Root" (struct (field "name" (string - - false) true false -) (field "k" (const (s "Beta")) true true -))))`,
+		Docs: []string{`{"name":"x","k":null}`, `{"name":"x","k":"Beta"}`}},
+	{Name: "cue-array-of-uint8", Formats: []string{"cue"},
+		Sexp: `(defs "Root" ("Root" (struct (field "name" (string - - false) true false -) (field "b" (array (int 8 false - -)) true false -))))`,
+		Docs: []string{`{"name":"x","b":[1,2,3]}`}},
 	{Name: "enum-and-nested",
 		Sexp: `(defs "Root" ("Root" (struct (field "e" (ref "Color") true false -) (field "inl" (enumS "p" "q") false false -) (field "list" (array (ref "Node")) true false -) (field "byKey" (dict (ref "Node")) false false -))) ("Color" (enumS "red" "green")) ("Node" (struct (field "v" (int 64 true - -) false false -) (field "next" (ref "Node") false false -))))`,
 		Docs: []string{`{"e":"green","inl":"q","list":[{"v":1,"next":{"v":2}},{}],"byKey":{"k":{"v":3}}}`, `{"e":"red","list":[]}`}},
@@ -84,39 +96,308 @@ func c11NullPaths(v JV, path string, out *[]string) {
 	}
 }
 
-var c11RefLike = regexp.MustCompile(`/(struct|oneOfStructs|oneOfScalars|array\([^)]*\)?\)?|dict\([^)]*\)?\)?)$`)
-
-// where a Python exception most plausibly comes from: the first explicit null that sits on a
-// construct `from_json` does not pass through (struct, union, collection), else the first null
-func c11ErrSite(d *Defs, doc JV) (string, string) {
-	var ps []string
-	c11NullPaths(doc, "$", &ps)
-	first, firstAt := "", ""
-	for _, p := range ps {
-		at := c01SrcAt(d, doc, p)
-		if first == "" {
-			first, firstAt = p, at
-		}
-		if c11RefLike.MatchString(at) && !strings.HasSuffix(at, "/array(string)") {
-			return p, at
-		}
-	}
-	if first == "" {
-		return "$", "no-null-in-document"
-	}
-	return first, firstAt
+// c11PathSteps splits "$.a.b[0].c" into steps (".a" → key "a", "[0]" → index 0)
+type c11Step struct {
+	key string
+	idx int // -1 for a key step
 }
 
-func c11Class(orig, got JV) string {
+func c11PathSteps(path string) []c11Step {
+	var out []c11Step
+	i := 1
+	for i < len(path) {
+		switch path[i] {
+		case '.':
+			j := i + 1
+			for j < len(path) && path[j] != '.' && path[j] != '[' {
+				j++
+			}
+			out = append(out, c11Step{path[i+1 : j], -1})
+			i = j
+		case '[':
+			j := i
+			for j < len(path) && path[j] != ']' {
+				j++
+			}
+			n := 0
+			fmt.Sscanf(path[i+1:j], "%d", &n)
+			out = append(out, c11Step{"", n})
+			i = j + 1
+		default:
+			i = len(path)
+		}
+	}
+	return out
+}
+
+// c11Lookup: the value at a path and whether every step exists in the document
+func c11Lookup(doc JV, path string) (JV, bool) {
+	cur := doc
+	for _, st := range c11PathSteps(path) {
+		if st.idx < 0 {
+			v, ok := cur.get(st.key)
+			if !ok {
+				return jNull(), false
+			}
+			cur = v
+		} else {
+			if cur.K != 'a' || st.idx >= len(cur.A) {
+				return jNull(), false
+			}
+			cur = cur.A[st.idx]
+		}
+	}
+	return cur, true
+}
+
+// c11SrcNode: the source construct a document path leads to (nil when the walk leaves the grammar)
+func c11SrcNode(d *Defs, doc JV, path string) *Src {
+	cur := d.resolve(srcRef(d.Root))
+	node := doc
+	for _, st := range c11PathSteps(path) {
+		if cur == nil {
+			return nil
+		}
+		if st.idx >= 0 {
+			if cur.Kind != SArray {
+				return nil
+			}
+			if node.K == 'a' && st.idx < len(node.A) {
+				node = node.A[st.idx]
+			} else {
+				node = jNull()
+			}
+			cur = d.resolve(cur.Elem)
+			continue
+		}
+		parent := node
+		if child, ok := node.get(st.key); ok {
+			node = child
+		} else {
+			node = jNull()
+		}
+		switch cur.Kind {
+		case SDict:
+			cur = d.resolve(cur.Elem)
+		case SStruct:
+			var next *Src
+			for _, f := range cur.Fields {
+				if f.Name == st.key {
+					next = f.Ty
+				}
+			}
+			cur = d.resolve(next)
+		case SOneOfStructs:
+			tag := ""
+			if tv, ok := parent.get(cur.Disc); ok && tv.K == 's' {
+				tag = tv.S
+			}
+			var next *Src
+			for _, br := range cur.Branches {
+				if br.Tag != tag {
+					continue
+				}
+				if bs := d.resolve(srcRef(br.Name)); bs != nil && bs.Kind == SStruct {
+					for _, f := range bs.Fields {
+						if f.Name == st.key {
+							next = f.Ty
+						}
+					}
+				}
+			}
+			cur = d.resolve(next)
+		default:
+			return nil
+		}
+	}
+	return cur
+}
+
+// a type admitting exactly one value: cog's front-ends read it as a constant
+func c11OneValued(s *Src) bool {
+	if s == nil {
+		return false
+	}
+	switch s.Kind {
+	case SConst:
+		return true
+	case SEnumS:
+		return len(s.EnumS) == 1
+	case SEnumI:
+		return len(s.EnumI) == 1
+	case SInt:
+		lo, hi := s.effRange()
+		return lo == hi
+	case SNum:
+		return s.FLo != nil && s.FHi != nil && *s.FLo == *s.FHi
+	}
+	return false
+}
+
+// c11At: c01SrcAt, with a one-valued leaf type spelled `const(<type>)`
+func c11At(d *Defs, doc JV, path string) string {
+	at := c01SrcAt(d, doc, path)
+	if n := c11SrcNode(d, doc, path); n != nil && n.Kind != SConst && c11OneValued(n) {
+		if i := strings.LastIndex(at, "/"); i >= 0 {
+			return at[:i+1] + "const(" + at[i+1:] + ")"
+		}
+		return "const(" + at + ")"
+	}
+	return at
+}
+
+// c11KeepOnlyNull: the document without its null members, except the one at `keep`
+func c11KeepOnlyNull(v JV, cur, keep string) JV {
+	switch v.K {
+	case 'o':
+		out := jObj()
+		for _, e := range v.O {
+			p := cur + "." + e.K
+			if e.V.isNull() {
+				if p == keep {
+					out.O = append(out.O, JKV{e.K, jNull()})
+				}
+				continue
+			}
+			out.O = append(out.O, JKV{e.K, c11KeepOnlyNull(e.V, p, keep)})
+		}
+		return out
+	case 'a':
+		out := jArr()
+		for i, e := range v.A {
+			out.A = append(out.A, c11KeepOnlyNull(e, fmt.Sprintf("%s[%d]", cur, i), keep))
+		}
+		return out
+	}
+	return v.clone()
+}
+
+// first path at which a dict sits directly in a dict whose values are not scalars (the construct
+// whose generated comprehension shadows `key`)
+func c11NestedDict(d *Defs, doc JV) (string, bool) {
+	var walk func(v JV, path string) (string, bool)
+	walk = func(v JV, path string) (string, bool) {
+		if n := c11SrcNode(d, doc, path); n != nil && n.Kind == SDict && v.K == 'o' {
+			if e := d.resolve(n.Elem); e != nil && e.Kind == SDict {
+				if ee := d.resolve(e.Elem); ee != nil && !c11PyScalar(d, ee) && len(v.O) > 0 {
+					return path, true
+				}
+			}
+		}
+		switch v.K {
+		case 'o':
+			for _, e := range v.O {
+				if p, ok := walk(e.V, path+"."+e.K); ok {
+					return p, true
+				}
+			}
+		case 'a':
+			for i, e := range v.A {
+				if p, ok := walk(e, fmt.Sprintf("%s[%d]", path, i)); ok {
+					return p, true
+				}
+			}
+		}
+		return "", false
+	}
+	return walk(doc, "$")
+}
+
+// scalar in the sense of the Python jenny's `IsArrayOf/IsMapOf(KindScalar)`: enums with several
+// members are a kind of their own
+func c11PyScalar(d *Defs, e *Src) bool {
+	e = d.resolve(e)
+	if e == nil {
+		return true
+	}
+	switch e.Kind {
+	case SAny, SBool, SString, SConst, SInt, SNum:
+		return true
+	case SEnumS:
+		return len(e.EnumS) == 1
+	case SEnumI:
+		return len(e.EnumI) == 1
+	}
+	return false
+}
+
+func c11Class(orig, got JV, origPresent bool) string {
 	switch {
 	case (got.K == 'a' && len(got.A) == 0 || got.K == 'o' && len(got.O) == 0) && orig.isNull():
 		return "empty-collection-kept"
+	case orig.isNull() && !got.isNull() && origPresent:
+		return "null-member-replaced"
 	case orig.isNull() && !got.isNull():
 		return "absent-member-emitted"
 	case (orig.K == 'a' && len(orig.A) == 0 || orig.K == 'o' && len(orig.O) == 0) && got.isNull():
 		return "empty-collection-dropped"
 	}
 	return c01Class(orig, got)
+}
+
+// class of a Python/Go difference at a path, relative to the document both were given
+func c11ClassB(doc JV, path string, py, gov JV) string {
+	dv, present := c11Lookup(doc, path)
+	same := func(a, b JV) bool { _, _, _, diff := c01Diff(a, b, "$"); return !diff }
+	switch {
+	case (py.K == 'a' && len(py.A) == 0 || py.K == 'o' && len(py.O) == 0) && gov.isNull():
+		return "empty-collection-only-in-python"
+	case gov.isNull() && !py.isNull() && present && !dv.isNull() && same(dv, py):
+		return "go-lacks-document-member"
+	case gov.isNull() && !py.isNull() && present && dv.isNull():
+		return "python-replaces-null"
+	case gov.isNull() && !py.isNull() && !present:
+		return "python-adds-member"
+	case py.isNull() && !gov.isNull() && present && same(dv, gov):
+		return "python-lacks-document-member"
+	case py.isNull() && !gov.isNull():
+		return "go-adds-member"
+	case present && same(dv, py):
+		return "go-changes-value:" + c01Class(py, gov)
+	case present && same(dv, gov):
+		return "python-changes-value:" + c01Class(gov, py)
+	}
+	return "both-differ:" + c01Class(py, gov)
+}
+
+// members that are null in `got` and do not exist in `ref`
+func c11AddedNull(ref, got JV, path string) (string, bool) {
+	switch got.K {
+	case 'o':
+		for _, e := range got.O {
+			r, ok := ref.get(e.K)
+			p := path + "." + e.K
+			if e.V.isNull() {
+				if !ok {
+					return p, true
+				}
+				continue
+			}
+			if ok {
+				if q, bad := c11AddedNull(r, e.V, p); bad {
+					return q, true
+				}
+			}
+		}
+	case 'a':
+		if ref.K == 'a' && len(ref.A) == len(got.A) {
+			for i := range got.A {
+				if q, bad := c11AddedNull(ref.A[i], got.A[i], fmt.Sprintf("%s[%d]", path, i)); bad {
+					return q, true
+				}
+			}
+		}
+	}
+	return "", false
+}
+
+type c11Doc struct {
+	c      *LabCase
+	d      JV
+	py, gd string
+	valid  bool
+	rvErr  string
+	blame  []string // null paths that raise on their own
 }
 
 func init() {
@@ -165,6 +446,25 @@ func init() {
 				}
 			}
 		}
+		if rp, ok := args["replay"]; ok {
+			// one case from a replay file: line 1 = format, line 2 = Src term, further lines = documents
+			lines := readLines(rp)
+			if len(lines) < 3 {
+				return fmt.Errorf("replay file %s: want format, term, documents", rp)
+			}
+			d, perr := parseDefsSexp(lines[1])
+			if perr != nil {
+				return fmt.Errorf("replay term: %w", perr)
+			}
+			c := lab.AddCase(d, lines[0])
+			cases = append(cases, c)
+			pinOf[c.ID] = "replay"
+			for _, dt := range lines[2:] {
+				if strings.TrimSpace(dt) != "" {
+					docs[c.ID] = append(docs[c.ID], mustJV(dt))
+				}
+			}
+		}
 		if args["n"] != "0" {
 			err = iterDefs(args, func(i int, d *Defs) error {
 				d.walkTags(func(t string) { hist[t]++ })
@@ -194,13 +494,27 @@ func init() {
 		if err := lab.Build(); err != nil {
 			return err
 		}
+		// ---- phase 1: every document through real Python and real Go
 		var goReqs, pyReqs []LabReq
 		usable := func(c *LabCase) bool { return c.Defs != nil && c.generated() && c.PyOK }
+		var all []*c11Doc
+		byCase := map[string][]*c11Doc{}
 		for _, c := range cases {
 			if !usable(c) {
 				continue
 			}
+			rv, rvErr := c.RefValidator("")
 			for _, d := range docs[c.ID] {
+				x := &c11Doc{c: c, d: d, gd: "notbuilt"}
+				if rvErr != nil {
+					x.rvErr = "no-reference-validator " + labOneLine(rvErr.Error())
+				} else if err := rv.validate(d); err != nil {
+					x.rvErr = "doc-rejected-by-reference-validator " + labOneLine(shortErr(err))
+				} else {
+					x.valid = true
+				}
+				all = append(all, x)
+				byCase[c.ID] = append(byCase[c.ID], x)
 				pyReqs = append(pyReqs, LabReq{c.ID, c.Defs.Root, "roundtrip", []string{d.json()}})
 				if c.GoOK {
 					goReqs = append(goReqs, LabReq{c.ID, c.Defs.Root, "dec", []string{d.json()}})
@@ -209,7 +523,51 @@ func init() {
 		}
 		pyRep := lab.PyCall(pyReqs)
 		goRep := lab.GoCall(goReqs)
-		pi, gi := 0, 0
+		gi := 0
+		for i, x := range all {
+			x.py = pyRep[i]
+			if x.c.GoOK {
+				x.gd = goRep[gi]
+				gi++
+			}
+		}
+		// ---- phase 2: blame. For every document Python refuses: which explicit null raises on its own
+		// (the document without its null members, that one null put back)?
+		type cand struct {
+			x    *c11Doc
+			path string
+		}
+		var cands []cand
+		var blameReqs []LabReq
+		for _, x := range all {
+			if !x.valid || strings.HasPrefix(x.py, "ok ") {
+				continue
+			}
+			var ps []string
+			c11NullPaths(x.d, "$", &ps)
+			// baseline: without any null member (path "" never matches)
+			cands = append(cands, cand{x, ""})
+			blameReqs = append(blameReqs, LabReq{x.c.ID, x.c.Defs.Root, "roundtrip", []string{c11KeepOnlyNull(x.d, "$", "").json()}})
+			for _, p := range ps {
+				cands = append(cands, cand{x, p})
+				blameReqs = append(blameReqs, LabReq{x.c.ID, x.c.Defs.Root, "roundtrip", []string{c11KeepOnlyNull(x.d, "$", p).json()}})
+			}
+		}
+		if len(blameReqs) > 0 {
+			rep := lab.PyCall(blameReqs)
+			baselineFails := map[*c11Doc]bool{}
+			for i, cd := range cands {
+				if strings.HasPrefix(rep[i], "ok ") {
+					continue
+				}
+				if cd.path == "" {
+					baselineFails[cd.x] = true // raises without any null: the nulls are not to blame
+				} else if !baselineFails[cd.x] {
+					cd.x.blame = append(cd.x.blame, cd.path)
+				}
+			}
+		}
+		// ---- rows
 		counts := map[string]int{}
 		for _, c := range cases {
 			switch {
@@ -227,7 +585,8 @@ func init() {
 			if pinOf[c.ID] != "" {
 				pin = " pin=" + pinOf[c.ID]
 			}
-			fmt.Fprintf(out, "-\tcase %s format=%s%s go=%v degraded=%v notes=%v src=%s\tok\n", c.ID, c.Format, pin, c.GoOK, c.Degraded, c.Notes, c.Defs.sexp())
+			fmt.Fprintf(out, "-\tcase %s format=%s%s go=%v sameIR=%v degraded=%v notes=%v src=%s\tok\n", c.ID, c.Format, pin, c.GoOK,
+				virSchemas(c.IRPy) == virSchemas(c.IRGo), c.Degraded, c.Notes, c.Defs.sexp())
 			if c.IRPyErr != "" {
 				fmt.Fprintf(out, "-\tskip %s no-python-ir %s\tok\n", c.ID, labOneLine(c.IRPyErr))
 			}
@@ -235,23 +594,13 @@ func init() {
 			if c.GoOK {
 				fmt.Fprintf(out, "defschemas %s-go %s\tok\tok\n", c.ID, virSchemas(c.IRGo))
 			}
-			rv, rvErr := c.RefValidator("")
-			for _, d := range docs[c.ID] {
-				py := pyRep[pi]
-				pi++
-				goDec := "notbuilt"
-				if c.GoOK {
-					goDec = goRep[gi]
-					gi++
-				}
+			rv, _ := c.RefValidator("")
+			for _, x := range byCase[c.ID] {
+				d, py, goDec := x.d, x.py, x.gd
 				info := fmt.Sprintf("case=%s format=%s%s", c.ID, c.Format, pin)
-				if rvErr != nil {
-					fmt.Fprintf(out, "-\tskip %s no-reference-validator %s\tok\n", c.ID, labOneLine(rvErr.Error()))
-					continue
-				}
-				if err := rv.validate(d); err != nil {
-					counts["doc-rejected-by-reference-validator"]++
-					fmt.Fprintf(out, "-\tskip %s doc-rejected-by-reference-validator %s\tok\n", c.ID, labOneLine(shortErr(err)))
+				if !x.valid {
+					counts[strings.SplitN(x.rvErr, " ", 2)[0]]++
+					fmt.Fprintf(out, "-\tskip %s %s\tok\n", c.ID, x.rvErr)
 					continue
 				}
 				counts["documents"]++
@@ -265,7 +614,14 @@ func init() {
 					if m := c11ExcRe.FindStringSubmatch(py); m != nil {
 						exc = m[1]
 					}
-					p, at := c11ErrSite(c.Defs, d)
+					p, at := "$", "no-single-null-raises"
+					if len(x.blame) > 0 {
+						p = x.blame[0]
+						at = c11At(c.Defs, d, p)
+					} else if np, ok := c11NestedDict(c.Defs, d); ok {
+						p = np
+						at = c11At(c.Defs, d, np) + "/nested-dict"
+					}
 					verdict = fmt.Sprintf("FAIL py-error class=%s at=%s %s path=%s reply=%s", exc, at, info, p, labOneLine(py))
 				default:
 					impl = py
@@ -275,8 +631,11 @@ func init() {
 						break
 					}
 					pyOut, pyOK = got, true
-					if p, x, y, diff := c01Diff(d, got, "$"); diff {
-						verdict = fmt.Sprintf("FAIL py-reenc-differs class=%s at=%s %s path=%s orig=%s got=%s", c11Class(x, y), c01SrcAt(c.Defs, d, p), info, p, c01Short(x), c01Short(y))
+					if p, xo, y, diff := c01Diff(d, got, "$"); diff {
+						_, present := c11Lookup(d, p)
+						verdict = fmt.Sprintf("FAIL py-reenc-differs class=%s at=%s %s path=%s orig=%s got=%s", c11Class(xo, y, present), c11At(c.Defs, d, p), info, p, c01Short(xo), c01Short(y))
+					} else if p, bad := c11AddedNull(d, got, "$"); bad {
+						verdict = fmt.Sprintf("FAIL py-reenc-differs class=null-member-added at=%s %s path=%s", c11At(c.Defs, d, p), info, p)
 					} else if err := rv.validate(got); err != nil {
 						verdict = "FAIL py-reenc-rejected-by-source-schema " + info + " " + labOneLine(shortErr(err))
 					}
@@ -303,16 +662,20 @@ func init() {
 						verdictB = "FAIL go-output-invalid-json " + info
 						break
 					}
-					if p, x, y, diff := c01Diff(pyOut, goOut, "$"); diff {
+					if p, xp, y, diff := c01Diff(pyOut, goOut, "$"); diff {
 						implB = "differ"
-						// x = Python's value, y = Go's value at the first differing path; the construct is
-						// looked up in the document (falls back to Python's output for emitted members)
-						at := c01SrcAt(c.Defs, d, p)
-						verdictB = fmt.Sprintf("FAIL py-go-differ class=%s at=%s %s path=%s py=%s go=%s", c11Class(y, x), at, info, p, c01Short(x), c01Short(y))
+						// xp = Python's value, y = Go's value at the first differing path
+						verdictB = fmt.Sprintf("FAIL py-go-differ class=%s at=%s %s path=%s py=%s go=%s", c11ClassB(d, p, xp, y), c11At(c.Defs, d, p), info, p, c01Short(xp), c01Short(y))
 					} else {
 						implB = "same"
 						if canonJSON([]byte(pyOut.json())) != canonJSON([]byte(goOut.json())) {
-							counts["B-null-member-presence-differs"]++
+							p, bad := c11AddedNull(goOut, pyOut, "$")
+							side := "python"
+							if !bad {
+								p, _ = c11AddedNull(pyOut, goOut, "$")
+								side = "go"
+							}
+							verdictB = fmt.Sprintf("FAIL py-go-differ class=null-member-only-in-%s at=%s %s path=%s", side, c11At(c.Defs, d, p), info, p)
 						}
 					}
 				}
@@ -331,7 +694,7 @@ func init() {
 		for _, k := range ks {
 			cs = append(cs, fmt.Sprintf("%s=%d", k, counts[k]))
 		}
-		fmt.Fprintf(out, "-\tstats %s timings=%s constructs=%v docvariants=%v\tok\n", strings.Join(cs, " "), fmtTimings(lab.Timings), hist, dhist)
+		fmt.Fprintf(out, "-\tstats %s blame-requests=%d timings=%s constructs=%v docvariants=%v\tok\n", strings.Join(cs, " "), len(blameReqs), fmtTimings(lab.Timings), hist, dhist)
 		return nil
 	})
 }
